@@ -9,6 +9,8 @@ import (
 
 	"pgregory.net/rapid"
 
+	"github.com/inspirer/textmapper/grammar"
+
 	"verif/harness/internal/batch"
 	"verif/harness/internal/ev"
 )
@@ -222,6 +224,15 @@ func c19Check(c c19Case, res *batch.Result, run runFunc, r *ev.Recorder) *Failur
 					}
 					prev = off
 				}
+				if !sawErr && twin != nil {
+					// nothing was reported: the input has to be a sentence (the recovery-free twin
+					// parses the same language; also with a parser object that has parsed before)
+					out2, pan2, err2 := c19Run(twin.run, ii, bsrc, "")
+					if k := strings.LastIndex(out2, "|"); err2 == nil && pan2 == "" && k >= 0 && strings.HasPrefix(out2[k:], "|err ") {
+						return failf("error-not-reported-on-non-sentence", "the recovering parser returns %q without calling the error handler, the same grammar without 'error' rules rejects the input (%q): %s", bout, out2, bwhere)
+					}
+					r.Class("mutant-is-a-sentence")
+				}
 				if strings.HasPrefix(bout[bar+1:], "err ") {
 					var off, end int
 					fmt.Sscanf(bout[bar+1:], "err %d %d", &off, &end)
@@ -250,11 +261,11 @@ func TestC19(t *testing.T) {
 	p := &batchProp[c19Case]{
 		ID:        "C19",
 		Rule:      "event-based grammars in extended notation (C02 generator without nested annotations) plus 1..3 recovery alternatives of the shapes `error`, `error t`, `t error`, `t error t` (optionally `-> Bad`) added to chosen nonterminals, with/without a skipped space token + fixWhitespace, optimizeTables on/off; every grammar is generated twice in one batch: with the recovery alternatives and without them. Per input 40 sentences (derived from the spec) and 3 invalid variants each (token deleted/inserted/replaced, random tokens, trailing garbage, an unmatched character). Invariants: no panic, the parse returns (10 s watchdog, hangs retried twice), every SyntaxError passed to the handler (and the returned one) lies inside the input and handler offsets never decrease; on sentences the handler is never called and the listener events equal those of the recovery-free twin. Non-trivial: a grammar where recovery resumed after an error on some invalid input and at least one sentence was compared with the twin; distinct by case JSON.",
-		Assume:    []string{"a hang is reported only when it reproduces three times; one-off timeouts are retried"},
+		Assume:    []string{"a hang is reported only when it reproduces three times; one-off timeouts are retried", "all inputs of a grammar are parsed with one Parser value per process (Init once); a mutated input on which no error is reported and nil is returned must be accepted by the recovery-free twin grammar"},
 		Quick:     48, Thorough: 800, BatchSize: 48,
 		Gen:       c19Gen,
-		Unit:      func(c c19Case, name string) (batch.Unit, bool) { return batch.Unit{Name: name, TM: c.render(name, true), Adapter: eventAdapter}, true },
-		Twin:      func(c c19Case, name string) (batch.Unit, bool) { return batch.Unit{Name: name, TM: c.render(name, false), Adapter: eventAdapter}, true },
+		Unit:      func(c c19Case, name string) (batch.Unit, bool) { return batch.Unit{Name: name, TM: c.render(name, true), Adapter: eventAdapterReuse}, true },
+		Twin:      func(c c19Case, name string) (batch.Unit, bool) { return batch.Unit{Name: name, TM: c.render(name, false), Adapter: eventAdapterReuse}, true },
 		Check:     c19Check,
 	}
 	p.run(t)
@@ -324,4 +335,23 @@ func TestC19S(t *testing.T) {
 		Check: c19sCheck,
 	}
 	p.run(t)
+}
+
+// eventAdapterReuse is eventAdapter with one Parser value per process: Init runs once, every
+// VerifRun parses with the same parser (the result of a parse must not depend on the parses
+// before it, e.g. on an error-suppression counter left over from a failed recovery).
+func eventAdapterReuse(g *grammar.Grammar, files map[string]string) map[string]string {
+	code := eventAdapter(g, files)["verif_export.go"]
+	code = strings.Replace(code, "func VerifRun(", "var (\n\tsb strings.Builder\n\tp Parser\n\tnerr int\n\tverifArg string\n\tverifInited bool\n)\n\nfunc VerifRun(", 1)
+	code = strings.Replace(code, "\tvar sb strings.Builder\n", "\tsb.Reset()\n\tverifArg = arg\n", 1)
+	code = strings.Replace(code, "\tvar p Parser\n", "", 1)
+	code = strings.Replace(code, "\tnerr := 0\n", "\tnerr = 0\n", 1)
+	code = strings.Replace(code, "arg != \"stop\"", "verifArg != \"stop\"", 1)
+	lines := strings.Split(code, "\n")
+	for i, l := range lines {
+		if strings.HasPrefix(l, "\tp.Init(") {
+			lines[i] = "\tif !verifInited {\n\t\tverifInited = true\n\t" + l + "\n\t}"
+		}
+	}
+	return map[string]string{"verif_export.go": strings.Join(lines, "\n")}
 }
